@@ -23,9 +23,25 @@ observables of EVERY live object are taken after EVERY call and
                          when the copy was taken); if a component rejects that value when it is
                          given directly, U must raise CircuitCompilationError
       listing            get_all_params has no duplicates, lists only the user's Parameter objects,
-                         and a Parameter that is not listed does not influence U (perturbation)
+                         lists exactly the Parameters that the circuit's accepted construction calls
+                         (and those of the circuits added to / copied into it) were given, whatever
+                         rewrites happened since, and a Parameter that is not listed does not
+                         influence U (perturbation)
       frozen             a frozen copy lists no parameter and its U never changes while it is not
                          itself the target of a call.
+
+Streams (in this order):
+  corpus     hand-written histories (paramgen.corpus): bounds / values exactly 0 in every spelling, equal
+             bounds, negative ranges, bounds installed and removed through the setters, ParameterDict
+             updates; one circuit with a Parameter in every field role x nesting x every spec-rebuilding
+             operation, updated only afterwards (model compared at the end of these, oracles at every call)
+  generic    random histories (gen_history)
+  boundary   random walks just outside / on / across the bounds of Parameters pinned to a pivot
+             (gen_boundary_history)
+  rewrite    build -> nest -> rewrite -> update rounds (gen_rewrite_history)
+  probe      inputs outside the ordered domain (NaN, ...), implementation only
+`shape:` counters in the evidence are computed from the EXECUTED histories (not from the generator's
+intent); the run is a machinery fault if the corpus did not exercise every required shape.
 
 NaN, complex numbers, bool and infinities are numeric for the code's isinstance checks but outside
 the model's ordered domain: they are probed on the implementation alone (finding F15: NaN passes
@@ -72,6 +88,9 @@ ASSUMPTIONS = [
 # the spec and must keep the circuit linked to the user's Parameter objects (finding F22, fixed in
 # ac87a52: they used to deep-copy the Parameters).  C10_REWRITES=0 leaves the two rewrites out.
 INCLUDE_REWRITES = os.environ.get("C10_REWRITES", "1") != "0"
+# experiments only: C10_STREAMS=generic,boundary,rewrite leaves the directed corpus out (to measure what the
+# random streams find on their own); the default runs everything
+STREAMS = [x for x in os.environ.get("C10_STREAMS", "corpus,generic,boundary,rewrite,probe").split(",") if x]
 
 CLAUSES = ("bounds_invariant", "rejected_noop", "live", "invalid_value", "listing", "frozen")
 
@@ -80,8 +99,27 @@ def target_of(op: list):
     return op[1]
 
 
-def model_run(ctx: Ctx, prog: list) -> dict:
-    return ctx.model.call({"op": "c10", "views": pg.views_for(prog), "prog": prog, "each": True})
+def model_run(ctx: Ctx, prog: list, each: bool = True) -> dict:
+    return ctx.model.call({"op": "c10", "views": pg.views_for(prog), "prog": prog, "each": each})
+
+
+def prov_step(prov: dict, op: list, r: str) -> None:
+    """Parameters a circuit was GIVEN by its accepted calls (the property's `every such parameter`):
+    fields of its own components, plus those of circuits added to / combined or copied into it;
+    a frozen copy was given none.  Rewrites do not appear here: they must not change the listing."""
+    if r != "ok":
+        return
+    name = op[0]
+    if name in ("new", "unitary", "freeze"):
+        prov[op[1]] = set()
+    elif name in ("bsp", "psp", "lossp"):
+        prov[op[1]] = prov[op[1]] | {a["p"] for a in op[2:] if isinstance(a, dict) and "p" in a}
+    elif name == "add":
+        prov[op[1]] = prov[op[1]] | prov[op[2]]
+    elif name == "plus":
+        prov[op[1]] = prov[op[2]] | prov[op[3]]
+    elif name == "copy":
+        prov[op[1]] = set(prov[op[2]])
 
 
 def expected_py(v):
@@ -187,14 +225,19 @@ def perturb_check(w: pg.World, snap: dict) -> list[tuple[str, str, str]]:
     return out
 
 
-def run_case(ctx: Ctx, prog: list, sample_pts: int = 3, stats: dict | None = None) -> list[tuple[str, str, str]]:
-    """returns (tag, clause, text) problems; tag = oracle | corr"""
+def run_case(ctx: Ctx, prog: list, sample_pts: int = 3, stats: dict | None = None, model: str = "each",
+             must_check: tuple = ()) -> list[tuple[str, str, str]]:
+    """returns (tag, clause, text) problems; tag = oracle | corr.
+    model = each (model compared after every call) | final (outcomes of every call, observables at the
+    end) | none (oracles only: used while shrinking an oracle failure)"""
     probs: list[tuple[str, str, str]] = []
     w = pg.World()
     results: list[str] = []
     snaps: list[dict] = []
     hist_vals: list[dict] = []
     frozen: dict[str, dict] = {}
+    prov: dict[str, set] = {}
+    mislisted: set = set()
     prev = pg.snapshot(w)
     for k, op in enumerate(prog):
         r = pg.apply_op(w, op)
@@ -202,6 +245,15 @@ def run_case(ctx: Ctx, prog: list, sample_pts: int = 3, stats: dict | None = Non
         snap = pg.snapshot(w)
         snaps.append(snap)
         hist_vals.append({pid: v[0] for pid, v in snap["params"].items()})
+        # -- listing (exactly the parameters the circuit was given)
+        prov_step(prov, op, r)
+        for cid, o in snap["circs"].items():
+            listed = {i for i in o["params"] if i != -1}
+            if cid in prov and listed != prov[cid] and cid not in mislisted:
+                mislisted.add(cid)
+                probs.append(("oracle", "listing", f"after call #{k} {op[:3]} ({r}): circuit {cid} was given the "
+                              f"parameters {sorted(prov[cid])} by its construction calls but get_all_params lists "
+                              f"{sorted(listed)}"))
         # -- rejected_noop
         if r != "ok":
             d = pg.snap_diff(prev, snap)
@@ -236,21 +288,25 @@ def run_case(ctx: Ctx, prog: list, sample_pts: int = 3, stats: dict | None = Non
     # -- live / invalid_value at sampled calls and at the end (shadow rebuild)
     memo: dict = {}
     n = len(prog)
-    pts = sorted({n - 1, *(ctx.rng.randrange(n) for _ in range(sample_pts))}) if n else []
+    pts = sorted({n - 1, *(t for t in must_check if 0 <= t < n),
+                  *(ctx.rng.randrange(n) for _ in range(sample_pts))}) if n else []
     for t in pts:
         for clause, text in pg.shadow_check(prog, results, hist_vals, t, snaps[t], memo):
             probs.append(("corr" if clause == "shadow" else "oracle", clause, text))
     # -- model
-    mres = model_run(ctx, prog)
-    if mres["results"] != results:
-        idx = next(i for i, (a, b) in enumerate(zip(results, mres["results"])) if a != b)
-        probs.append(("corr", "outcome", f"call #{idx} {prog[idx][:5]} impl={results[idx]} model={mres['results'][idx]}"))
-    else:
-        for k, (snap, ms) in enumerate(zip(snaps, mres["snaps"])):
-            ps = compare_snap(k, prog[k], snap, ms)
-            probs += ps
-            if ps:
-                break
+    if model != "none" and prog:
+        mres = model_run(ctx, prog, each=model == "each")
+        if mres["results"] != results:
+            idx = next(i for i, (a, b) in enumerate(zip(results, mres["results"])) if a != b)
+            probs.append(("corr", "outcome", f"call #{idx} {prog[idx][:5]} impl={results[idx]} model={mres['results'][idx]}"))
+        elif model == "each":
+            for k, (snap, ms) in enumerate(zip(snaps, mres["snaps"])):
+                ps = compare_snap(k, prog[k], snap, ms)
+                probs += ps
+                if ps:
+                    break
+        else:
+            probs += compare_snap(n - 1, prog[-1], snaps[-1], mres["final"])
     # -- listing completeness (perturbs the live objects: last)
     if snaps:
         probs += perturb_check(w, snaps[-1])
@@ -269,10 +325,12 @@ def report(ctx: Ctx, prog: list, probs: list) -> None:
     oracle = [p for p in probs if p[0] == "oracle"]
     first = (oracle or probs)[0]
 
+    mode = "none" if first[0] == "oracle" else "each"   # an oracle failure is shrunk on the implementation alone
+
     def still(sub):
         if not pg.well_formed(sub):
             return False
-        ps = run_case(ctx, sub, sample_pts=len(sub))
+        ps = run_case(ctx, sub, sample_pts=len(sub), model=mode)
         return any(q[0] == first[0] and q[1] == first[1] for q in ps)
 
     small = ddmin(prog, still, max_tests=250)
@@ -359,6 +417,125 @@ def nontrivial(prog: list, results: list[str]) -> bool:
     return attached >= 1 and upd >= 1
 
 
+REWRITE_OPS = ("nonadj", "compress", "unpack", "copy", "plus", "add", "freeze")
+
+# shapes every run must have exercised (the corpus does so deterministically)
+REQUIRED_SHAPES = (
+    "shape:set above a max bound == 0 (direct)", "shape:set above a max bound == 0 (dict)",
+    "shape:set below a min bound == 0 (direct)", "shape:set below a min bound == 0 (dict)",
+    "shape:set exactly on a bound", "shape:set while min == max", "shape:non-numeric set, only bound is 0",
+    "shape:bound := 0 accepted", "shape:bound := 0 rejected", "shape:bound set while value == 0",
+    "shape:bound removed, then value moved past it", "shape:field attached while its Parameter == 0",
+    "shape:frozen while a Parameter == 0", "shape:zero spelled int", "shape:zero spelled float", "shape:zero spelled -0.0",
+    "shape:nonadj of a non-adjacent Parameter beam splitter, then update",
+    *(f"shape:{r}@depth{d}, then update" for r in REWRITE_OPS[:6] for d in (0, 1, 2) if (r, d) != ("add", 0)),
+)
+
+
+def is_zero(x) -> bool:
+    return isinstance(x, (int, float)) and not isinstance(x, bool) and x == 0
+
+
+def shapes(prog: list, results: list[str], snaps: list[dict]) -> list[str]:
+    """which boundary / rewrite-before-update shapes this EXECUTED history contained (coverage only)"""
+    out: list[str] = []
+    prov: dict[str, set] = {}
+    far: dict[str, set] = {}      # cid -> Parameters that are the reflectivity of a non-adjacent BS in it
+    depth: dict[str, int] = {}    # cid -> nesting depth of its deepest Parameter field
+    pending: list = []            # rewrites waiting for a later accepted update of one of their parameters
+    dropped: dict = {}            # (pid, side) -> bound that was removed
+    for k, (op, r) in enumerate(zip(prog, results)):
+        name = op[0]
+        before = snaps[k - 1] if k else {"params": {}, "dicts": {}, "circs": {}}
+        after = snaps[k]
+        for x in op:
+            for v in (x if isinstance(x, list) else [x]):
+                if isinstance(v, dict) and "py" in v and is_zero(v["py"]) and "n" in v:
+                    out.append("shape:zero spelled " + ("int" if isinstance(v["py"], int) else
+                                                       "-0.0" if math.copysign(1, v["py"]) < 0 else "float"))
+        pid = v = None
+        if name == "pset":
+            pid, v = op[1], op[2]
+        elif name == "dset":
+            pid = next((q for key, q, _ in before["dicts"].get(op[1], []) if key == op[2]), None)
+            v = op[3]
+        if pid is not None and pid in before["params"]:
+            val, lo, hi = before["params"][pid]
+            via = "dict" if name == "dset" else "direct"
+            if "n" in v:
+                x = v["py"]
+                if is_zero(hi) and x > 0:
+                    out.append(f"shape:set above a max bound == 0 ({via})")
+                if is_zero(lo) and x < 0:
+                    out.append(f"shape:set below a min bound == 0 ({via})")
+                if (lo is not None and x == lo) or (hi is not None and x == hi):
+                    out.append("shape:set exactly on a bound")
+                if lo is not None and hi is not None and lo == hi:
+                    out.append("shape:set while min == max")
+                for side, cmp in (("min", lambda a, b: a < b), ("max", lambda a, b: a > b)):
+                    b = dropped.get((pid, side))
+                    if b is not None and r == "ok" and cmp(x, b):
+                        out.append("shape:bound removed, then value moved past it")
+            elif (lo is None or is_zero(lo)) and (hi is None or is_zero(hi)) and (lo is not None or hi is not None):
+                out.append("shape:non-numeric set, only bound is 0")
+            if r == "ok" and not pg.same_val(after["params"][pid][0], val):
+                for item in pending:
+                    if pid in item[1] and not item[2]:
+                        item[2] = True
+                        out.extend(item[0])
+        if name in ("pmin", "pmax") and op[1] in before["params"]:
+            val, lo, hi = before["params"][op[1]]
+            b = op[2]
+            side = name[1:]
+            if b is None:
+                if r == "ok" and (lo if side == "min" else hi) is not None:
+                    dropped[(op[1], side)] = lo if side == "min" else hi
+            elif "n" in b:
+                if is_zero(b["py"]):
+                    out.append("shape:bound := 0 " + ("accepted" if r == "ok" else "rejected"))
+                if is_zero(val):
+                    out.append("shape:bound set while value == 0")
+                if isinstance(val, (int, float)) and b["py"] == val:
+                    out.append("shape:bound := value")
+                if r == "ok":
+                    dropped.pop((op[1], side), None)
+        if r != "ok":
+            continue
+        prov_step(prov, op, r)
+        if name in ("new", "unitary"):
+            far[op[1]], depth[op[1]] = set(), -1
+        elif name in ("bsp", "psp", "lossp"):
+            pids = [a["p"] for a in op[2:] if isinstance(a, dict) and "p" in a]
+            if pids:
+                depth[op[1]] = max(depth[op[1]], 0)
+            if any(q in before["params"] and is_zero(before["params"][q][0]) for q in pids):
+                out.append("shape:field attached while its Parameter == 0")
+            if name == "bsp" and abs(op[2] - op[3]) >= 2 and isinstance(op[4], dict) and "p" in op[4]:
+                far[op[1]] = far[op[1]] | {op[4]["p"]}
+        elif name == "copy":
+            far[op[1]], depth[op[1]] = set(far[op[2]]), depth[op[2]]
+        elif name == "freeze":
+            if any(is_zero(before["params"][q][0]) for q in prov.get(op[2], ()) if q in before["params"]):
+                out.append("shape:frozen while a Parameter == 0")
+            far[op[1]], depth[op[1]] = set(), -1
+        elif name == "plus":
+            far[op[1]], depth[op[1]] = far[op[2]] | far[op[3]], max(depth[op[2]], depth[op[3]])
+        elif name == "add":
+            far[op[1]] = far[op[1]] | far[op[2]]
+            if depth[op[2]] >= 0:
+                depth[op[1]] = max(depth[op[1]], depth[op[2]] + 1)
+        if name in REWRITE_OPS and name != "freeze":
+            t = op[1]
+            labels = [f"shape:{name}@depth{min(depth[t], 2)}, then update"] if depth[t] >= 0 else []
+            if name == "nonadj":
+                if far[t]:
+                    labels.append("shape:nonadj of a non-adjacent Parameter beam splitter, then update")
+                far[t] = set()
+            if labels:
+                pending.append([labels, set(prov[t]), False])
+    return out
+
+
 def self_test(ctx: Ctx) -> None:
     """the comparison must notice an injected difference (a parameter update the model does not see)"""
     v1, v2 = pg.UNIT_IN[4], pg.UNIT_IN[7]
@@ -373,27 +550,32 @@ def self_test(ctx: Ctx) -> None:
 
 
 def run(ctx: Ctx) -> None:
-    ctx.rule = ("random histories over Parameters (reflectivity/loss kind, phase kind, unattached), ParameterDicts and "
+    ctx.rule = ("directed corpus (bounds / values exactly 0 in every spelling, equal bounds, negative ranges, bounds "
+                "installed / removed by the setters, ParameterDict updates; a Parameter in every field role x nesting "
+                "x every spec-rebuilding operation, updated afterwards), then random histories over Parameters "
+                "(reflectivity/loss kind, phase kind, unattached), ParameterDicts and "
                 "circuits: value/bound updates (accepted and rejected), ParameterDict updates, components with "
                 "Parameter fields in every role, add/copy/+/unpack/herald, swap compression and non-adjacent-BS removal, "
-                "frozen copies; ~15% rejected calls; "
-                "non-trivial = at least one accepted component holding a Parameter and one accepted update; "
-                "distinct = distinct op list")
+                "frozen copies; boundary walks around pinned Parameters; build -> nest -> rewrite -> update rounds; "
+                "non-trivial = at least one accepted component holding a Parameter and one accepted update, or (boundary "
+                "streams) one accepted and one rejected update; distinct = distinct op list")
     self_test(ctx)
     rng = ctx.rng
-    N = ctx.n(300, 3000)
-    for i in range(N):
-        if ctx.out_of_time():
-            break
-        prog, counts = pg.gen_history(rng, big=ctx.thorough, rewrites=INCLUDE_REWRITES)
+    state = {"i": 0}
+
+    def one(stream: str, prog: list, counts: dict, **kw) -> bool:
+        """run one history; False = stop generating"""
         stats: dict = {}
-        probs = run_case(ctx, prog, sample_pts=ctx.n(3, 5), stats=stats)
+        probs = run_case(ctx, prog, stats=stats, **kw)
         res = stats["results"]
+        ctx.count("stream:" + stream)
         for k, v in counts.items():
             ctx.count(k, v)
         for op, r in zip(prog, res):
             if r != "ok":
                 ctx.count("rejected:" + op[0] + ":" + r)
+        for sh in shapes(prog, res, stats["snaps"]):
+            ctx.count(sh)
         final = stats["final"]
         if final:
             if any("err" in o for o in final["circs"].values()):
@@ -402,16 +584,53 @@ def run(ctx: Ctx) -> None:
                 ctx.count("final:circuit with >=2 parameters")
         if any(op[0] == "add" and r == "ok" for op, r in zip(prog, res)):
             ctx.count("history:accepted add")
-        ctx.case(json.dumps(prog), nontrivial(prog, res), sample=prog if i < 2 else None)
-        if ctx.thorough and i % 500 == 499:
-            eprint(f"[C10] {i + 1}/{N} histories, {round(time.time() - ctx.t0)}s")
+        upd = [r for op, r in zip(prog, res) if op[0] in ("pset", "pmin", "pmax", "dset")]
+        nt = nontrivial(prog, res) or (stream in ("corpus", "boundary") and "ok" in upd and any(r != "ok" for r in upd))
+        ctx.case(json.dumps(prog), nt, sample=prog if state["i"] in (0, 60) else None)
+        state["i"] += 1
         if probs:
             ctx.count("histories_with_problems")
+            ctx.count("histories_with_problems:" + stream)
             report(ctx, prog, probs)
             if len(ctx.violations) + len(ctx.disagreements) >= 8:
                 ctx.notes.append("stopped early: 8 failing histories")
-                break
-    for _ in range(ctx.n(80, 800)):
+                return False
+        return not ctx.out_of_time()
+
+    def streams() -> None:
+        # -- directed corpus: always, first
+        for name, prog in pg.corpus() if "corpus" in STREAMS else []:
+            fields = name.startswith("fields:")
+            rw = [k for k, op in enumerate(prog) if op[0] in REWRITE_OPS]
+            if fields:
+                ctx.count("corpus:model compared at the end only")
+            if not one("corpus", prog, {"corpus:" + name.split(":")[0].split("=")[0]: 1},
+                       sample_pts=2 if fields else len(prog), model="final" if fields else "each",
+                       must_check=tuple(rw[:3])):
+                return
+        missing = [sh for sh in REQUIRED_SHAPES if not ctx.branches.get(sh)]
+        if missing and "corpus" in STREAMS and not (ctx.violations or ctx.disagreements):
+            raise MachineryFault(f"the directed corpus no longer exercises: {missing}")
+        # -- random streams, interleaved so that a time cap cuts all of them alike
+        plan = (["generic"] * ctx.n(220, 3000) + ["boundary"] * ctx.n(200, 2000) + ["rewrite"] * ctx.n(90, 1000))
+        plan = [x for x in plan if x in STREAMS]
+        rng.shuffle(plan)
+        for i, stream in enumerate(plan):
+            if stream == "generic":
+                prog, counts = pg.gen_history(rng, big=ctx.thorough, rewrites=INCLUDE_REWRITES)
+            elif stream == "boundary":
+                prog, counts = pg.gen_boundary_history(rng, big=ctx.thorough)
+            else:
+                prog, counts = pg.gen_rewrite_history(rng, big=ctx.thorough)
+            if not one(stream, prog, counts, sample_pts=ctx.n(3, 5)):
+                return
+            if ctx.thorough and i % 500 == 499:
+                eprint(f"[C10] {i + 1}/{len(plan)} histories, {round(time.time() - ctx.t0)}s")
+
+    streams()
+    if STREAMS != ["corpus", "generic", "boundary", "rewrite", "probe"]:
+        ctx.notes.append(f"C10_STREAMS={','.join(STREAMS)}: not the full check")
+    for _ in range(ctx.n(80, 800) if "probe" in STREAMS else 0):
         if ctx.out_of_time():
             break
         probe(ctx, rng)
